@@ -34,6 +34,10 @@ type GOp struct {
 	// RetryFinal: when the upload is rejected, the client sends its final request once more (same session for a
 	// resumable upload): the answer must again not be a success and nothing may be stored
 	RetryFinal bool `json:"retry_final,omitempty"`
+	// Upload2: two resumable sessions A = (Name, Data) and B = (Name2, Data2), started one after the other and
+	// continued chunk by chunk in alternation; A completes first
+	Name2 string `json:"name2,omitempty"`
+	Data2 []byte `json:"data2,omitempty"`
 	// a step run between the initiation of a resumable upload and its first chunk
 	Between   *GOp            `json:"between,omitempty"`
 	PatchBody json.RawMessage `json:"patch,omitempty"`
@@ -305,6 +309,8 @@ func (w *gcsWorld) step(o *GOp) (string, string) {
 		return "", ""
 	case "Upload":
 		return w.stepUpload(o)
+	case "Upload2":
+		return w.stepUpload2(o)
 	case "Get":
 		r := w.do(gcs.ReqGetMedia(o.Form, o.Bucket, o.Name))
 		if r.Panic != "" {
@@ -703,6 +709,79 @@ func (w *gcsWorld) stepUpload(o *GOp) (string, string) {
 			return fail("header", "x-goog-metageneration header %q, want 1", g)
 		}
 		if bad := mdl.CommitWrite(o.Bucket, o.Name, o.Data, *exp.View, false, got.Generation); bad != "" {
+			return fail("generation", "%s", bad)
+		}
+	}
+	return "", ""
+}
+
+// stepUpload2 drives two resumable upload sessions in alternation (see GOp.Name2).
+func (w *gcsWorld) stepUpload2(o *GOp) (string, string) {
+	mdl := w.model
+	fail := func(class, f string, a ...interface{}) (string, string) {
+		return fmt.Sprintf("%s: ", o.String()) + fmt.Sprintf(f, a...) + "\n   http: " + strings.Join(w.trace, "\n         "), class
+	}
+	type sess struct {
+		name string
+		data []byte
+		meta gcs.ObjMeta
+		uri  string
+	}
+	ss := []*sess{{name: o.Name, data: o.Data, meta: o.Meta}, {name: o.Name2, data: o.Data2, meta: gcs.ObjMeta{ContentType: "text/second", Metadata: map[string]string{"session": "B"}}}}
+	for _, s := range ss {
+		r := w.do(gcs.ReqResumableStart(o.Bucket, s.name, s.meta, nil))
+		if r.Panic != "" || r.Status != 200 {
+			return fail("status", "initiation of %q: status %d %s", s.name, r.Status, r.Panic)
+		}
+		u, err := url.Parse(r.Header.Get("Location"))
+		if err != nil || u.Query().Get("upload_id") == "" {
+			return fail("session", "no usable session URL for %q", s.name)
+		}
+		s.uri = u.RequestURI()
+	}
+	if ss[0].uri == ss[1].uri {
+		return fail("session", "two initiations got the same session URL %q", ss[0].uri)
+	}
+	// first halves, alternating; then the rest of A (completes), then the rest of B (completes)
+	half := func(s *sess) int { return (len(s.data) + 1) / 2 }
+	for _, s := range ss {
+		h := half(s)
+		if h == 0 || h == len(s.data) {
+			continue
+		}
+		r := w.do(gcs.ReqResumableChunk(s.uri, s.data[:h], fmt.Sprintf("bytes 0-%d/*", h-1), false, false))
+		if r.Panic != "" || r.Status != 308 {
+			return fail("status", "first chunk of %q: status %d %s, want 308", s.name, r.Status, r.Panic)
+		}
+		if rg, want := r.Header.Get("Range"), fmt.Sprintf("bytes=0-%d", h-1); rg != want {
+			return fail("header", "first chunk of %q: Range header %q, want %q", s.name, rg, want)
+		}
+	}
+	for _, s := range ss {
+		h := half(s)
+		if h == len(s.data) {
+			h = 0
+		}
+		cr := fmt.Sprintf("bytes %d-%d/%d", h, len(s.data)-1, len(s.data))
+		if len(s.data) == h {
+			cr = fmt.Sprintf("bytes */%d", len(s.data))
+		}
+		r := w.do(gcs.ReqResumableChunk(s.uri, s.data[h:], cr, false, false))
+		if r.Panic != "" {
+			return fail("panic", "panic: %s", r.Panic)
+		}
+		exp := mdl.ExpectUpload(o.Bucket, s.name, s.data, s.meta, nil)
+		if !inInts(r.Status, exp.Statuses) || !exp.Performed {
+			return fail("status", "final chunk of %q: status %d, want one of %v", s.name, r.Status, exp.Statuses)
+		}
+		got, err := gcs.ParseObject(r.Body)
+		if err != nil {
+			return fail("body", "cannot parse object: %v", err)
+		}
+		if d := gcs.DiffView(*got, *exp.View, true); d != "" {
+			return fail("resp", "upload response of %q differs: %s", s.name, d)
+		}
+		if bad := mdl.CommitWrite(o.Bucket, s.name, s.data, *exp.View, false, got.Generation); bad != "" {
 			return fail("generation", "%s", bad)
 		}
 	}
